@@ -315,8 +315,8 @@ class SymSet(Sym):
             return NativeStub(update, "set.update")
         if name == "add":
             def add(x):
-                if not isinstance(x, SId):
-                    raise Unsupported("set.add of non-id")
+                if not (isinstance(x, Sym) and hasattr(x, "e") and z3.is_expr(x.e) and x.e.sort() == self.sort):
+                    raise Unsupported("set.add of a value of another sort")
                 cur = self.member
                 self.arr = None
                 self.member = lambda y, cur=cur, e=x.e: z3.Or(cur(y), y == e)
